@@ -87,8 +87,27 @@ def packing_cases(draw, algs=None, presentations=None, max_len=12, eighths=True,
     profile, values = draw(S.packing_values(C, 1, n_max, allow_zero=allow_zero))
     case = {"alg": alg, "values": values, "binsize": C, "pres": draw(S.presentations(presentations)),
             "nseed": draw(st.integers(0, 5)), "profile": profile}
-    if eighths and alg != "bc" and draw(st.integers(0, 4)) == 0:
+    if draw(st.integers(0, 6)) == 0:
+        magnify(draw, case, allow_zero)
+    elif eighths and alg != "bc" and draw(st.integers(0, 4)) == 0:
         case["den"] = 8          # the same integers read as multiples of 1/8 (exactly representable)
+    return case
+
+
+def magnify(draw, case, allow_zero=True, cover=False):
+    """The same instance at a large magnitude: bin size and values times M (10^6 .. 2^38), each value then moved by -1, 0 or +1
+    unit.  Sums that were exactly at the bin size are now one unit (a relative 1e-7 .. 1e-12) above or below it - the
+    region where a tolerance in a comparison shows.  All sums stay far below 2^53."""
+    M = draw(st.sampled_from([10 ** 6, 10 ** 9, 2 ** 30, 10 ** 10, 2 ** 38]))
+    C = case["binsize"] * M
+    deltas = S.splitmix(draw(st.integers(0, 2 ** 40)), len(case["values"]), 0, 5)
+    vals = []
+    for v, d in zip(case["values"], deltas):
+        x = v * M + {0: -1, 1: 1}.get(d, 0)
+        x = max(0 if allow_zero else 1, x)
+        vals.append(x if cover else min(x, C))
+    case["values"], case["binsize"] = vals, C
+    case["profile"] = case.get("profile", "-") + "*M"
     return case
 
 
@@ -97,8 +116,11 @@ def covering_cases(draw, algs=None, presentations=None, max_len=14):
     alg = draw(st.sampled_from(algs or COVERERS))
     C = draw(S.binsizes())
     profile, values = draw(S.covering_values(C, 1, max_len))
-    return {"alg": alg, "values": values, "binsize": C, "pres": draw(S.presentations(presentations)),
+    case = {"alg": alg, "values": values, "binsize": C, "pres": draw(S.presentations(presentations)),
             "nseed": draw(st.integers(0, 5)), "profile": profile}
+    if draw(st.integers(0, 6)) == 0:
+        magnify(draw, case, allow_zero=False, cover=True)
+    return case
 
 
 def valid_partition_case(case):
